@@ -5,6 +5,7 @@ import OAP.Model.Frame
 import OAP.Proofs.Frame
 import OAP.Proofs.StreamComplete
 import OAP.Proofs.GenFuncsProto
+import OAP.Proofs.GenFuncsPack
 import OAP.Props.C02
 import OAP.Props.C09
 set_option linter.unusedSimpArgs false
@@ -371,8 +372,47 @@ example : Gen.Fn.v1_protocolV1_UnpackBytes idGz 1 [0x03, 7, 0, 0, 3, 1, 2, 3] =
     .ok (some { metadata := { type := .pushPacket, cmdCode := 7, codec := 1 }, body := [1, 2, 3] }) := by decide
 example : Gen.Fn.v1_protocolV1_UnpackBytes idGz 1 [0x03, 7, 0, 0, 3, 1, 2] = .err "invalid frame" := by decide
 
-/-- the one-shot decoders of both versions and `Header.Metadata` were inside the translatable subset in this run -/
+/-- T2 tie at function level for the protocol-level ENCODERS: `(*protocolV1).Pack` (go/v1/v1.go) and `(*protocolV2).Pack` (go/v2/v2.go),
+translated statement by statement from the Go source in this run (`Gen.Fn.v1_protocolV1_Pack`, `Gen.Fn.v2_protocolV2_Pack`; with them
+both `headerFromMetadata`: pool Get as the zero header, the deferred Put skipped; the variadic options collapsed to the threshold `thr`
+they set — `NewPackOptions` starts from `MinGzipSize = 0`, `GzipSize(n)` sets it; the packet pointer threaded and returned as mutated;
+`gzip.Compress` as the oracle's `compress`; `make`/`copy`/`PutUint64` as the checked `Bytes.copyAt`/`Bytes.putBE64`;
+`MarshalMetadata` as `Metadata.marshalMap`), equal the model's `Frame.pack` that `pack_conforms`, `C02.*` and `C10.gzip_flag_iff` are
+about: the same frame, the same mutated packet (`Body` overwritten by the compressed bytes, `Metadata.Gzip` describing this frame), the
+same errors in the same order (compressor error, body limit, invalid type), and no panic the model does not have — for every oracle,
+every threshold (negative ones included) and every packet: any type (`GenFuncs.toG` maps `PType.other` to ""), a signature of ANY length
+(the `copy` into the last sixteen bytes is the model's `sigWindow`), bodies and metadata of any size. No hypothesis is needed. -/
+theorem pack_is_generated (gz : GzOracle) (p : Packet) (thr : Int) :
+    (Gen.Fn.v1_protocolV1_Pack gz (GenFuncs.toG p) thr).map (fun r => (r.1, GenFuncs.toModelPacket r.2)) = pack .v1 gz p thr ∧
+    (Gen.Fn.v2_protocolV2_Pack gz (GenFuncs.toG p) thr).map (fun r => (r.1, GenFuncs.toModelPacket r.2)) = pack .v2 gz p thr :=
+  ⟨GenFuncs.v1_pack_gen gz p thr, GenFuncs.v2_pack_gen gz p thr⟩
+
+/-- … and over the generated packets themselves (`toG` and `toModelPacket` are inverse to each other) -/
+theorem pack_is_generated' (gz : GzOracle) (g : Gen.Fn.GPacket) (thr : Int) :
+    (Gen.Fn.v1_protocolV1_Pack gz g thr).map (fun r => (r.1, GenFuncs.toModelPacket r.2)) = pack .v1 gz (GenFuncs.toModelPacket g) thr ∧
+    (Gen.Fn.v2_protocolV2_Pack gz g thr).map (fun r => (r.1, GenFuncs.toModelPacket r.2)) = pack .v2 gz (GenFuncs.toModelPacket g) thr ∧
+    GenFuncs.toG (GenFuncs.toModelPacket g) = g :=
+  ⟨GenFuncs.v1_pack_gen_g gz g thr, GenFuncs.v2_pack_gen_g gz g thr, GenFuncs.toG_toModel g⟩
+
+/-- `headerFromMetadata` of both versions as translated is the model's -/
+theorem headerFromMetadata_is_generated (g : Gen.Fn.GPacket) :
+    (Gen.Fn.v1_headerFromMetadata g.metadata).map GenFuncs.v1M = .ok (headerFromMetadata .v1 (GenFuncs.toModelPacket g)) ∧
+    (Gen.Fn.v2_headerFromMetadata g.metadata).map GenFuncs.v2M = .ok (headerFromMetadata .v2 (GenFuncs.toModelPacket g)) :=
+  ⟨GenFuncs.v1_headerFromMetadata_gen g, GenFuncs.v2_headerFromMetadata_gen g⟩
+
+/-- a verified push packet with a 3-byte signature -/
+def exPushG : Gen.Fn.GPacket :=
+  { metadata := { type := .pushPacket, cmdCode := 7, verify := true, nonce := 1, signature := [9, 9, 9] }, body := [1, 2] }
+
+/-- non-vacuity: the translated v1 encoder on `exPushG` (zero-padded signature window), no compression; and on a packet without a type -/
+example : Gen.Fn.v1_protocolV1_Pack idGz exPushG 0 =
+    .ok ([0x13, 7, 0, 0, 2, 1, 2, 0, 0, 0, 0, 0, 0, 0, 1, 9, 9, 9, 0, 0, 0, 0, 0, 0, 0, 0, 0, 0, 0, 0, 0], exPushG) := by decide
+example : Gen.Fn.v1_protocolV1_Pack idGz { metadata := { cmdCode := 7 }, body := [1, 2] } 0 = .err "invalid packet type" := by decide
+
+/-- the one-shot decoders and the encoders of both versions, `Header.Metadata` and both `headerFromMetadata` were inside the translatable
+subset in this run -/
 theorem functions_translated :
-    ["v1.Header.Metadata", "v1.protocolV1.UnpackBytes", "v2.protocolV2.UnpackBytes"].all (fun f => Gen.Fn.translated.contains f) = true := by decide
+    ["v1.Header.Metadata", "v1.protocolV1.UnpackBytes", "v2.protocolV2.UnpackBytes",
+     "v1..headerFromMetadata", "v2..headerFromMetadata", "v1.protocolV1.Pack", "v2.protocolV2.Pack"].all (fun f => Gen.Fn.translated.contains f) = true := by decide
 
 end OAP.C01
